@@ -27,6 +27,8 @@ class Module(object):
         self.src = src
         self.lines = src.splitlines()
         self.tree = ast.parse(src, filename=path)
+        from . import alpha
+        self.alpha_mapped = alpha.canonicalise(self.tree, name)   # pure renamings of locals are undone (core/alpha.py)
         for node in ast.walk(self.tree):
             for ch in ast.iter_child_nodes(node):
                 ch._parent = node
